@@ -356,7 +356,7 @@ func primeBelow(t *rapid.T, hi int, label string) int {
 // different butterfly passes; hi itself is drawn so that most lengths are small
 // (a general-radix pass costs O(p^2)).
 func drawLen(t *rapid.T, maxHi int) (int, string) {
-	his := []int{64, 300, 1000, 3000, 10000}
+	his := []int{64, 300, 300, 1000, 1000, 3000, 3000, 10000}
 	var ok []int
 	for _, h := range his {
 		if h <= maxHi {
@@ -427,7 +427,7 @@ func drawInput(t *rapid.T, n int) (kind string, p int, seed uint64) {
 }
 
 func TestDefsumSampled(t *testing.T) {
-	vk.Run(t, "defsum-sampled", vk.Opts{Quick: 700, Thorough: 12000}, func(t *rapid.T) dsCase {
+	vk.Run(t, "defsum-sampled", vk.Opts{Quick: 560, Thorough: 8000}, func(t *rapid.T) dsCase {
 		n, _ := drawLen(t, 10000)
 		kind, p, seed := drawInput(t, n)
 		c := dsCase{N: n, Kind: kind, P: p, Seed: seed}
